@@ -163,7 +163,8 @@ fn tt_subst(t: &TT, s: &NameSet) -> TT {
         return t.clone();
     }
     match t {
-        TT::A(a) if s.contains(a) => TT::L(vec![TT::A("q".into()), TT::A(".".into()), TT::A(format!("\"{a}_$_1\""))]),
+        // (a free variable of the REPL keeps its own spelling; a bound name has been renamed)
+        TT::A(a) if s.contains(a) => TT::L(vec![TT::A("q".into()), TT::A(".".into()), TT::A(if matches!(a.as_str(), "x" | "y" | "z") { a.clone() } else { format!("\"{a}_$_1\"") })]),
         TT::A(_) => t.clone(),
         TT::L(v) => {
             let minus = |names: &NameSet| -> NameSet { s.difference(names).cloned().collect() };
@@ -365,6 +366,18 @@ fn tt_com_view(t: &TT, bound: &NameSet) -> TT {
                 _ => TT::L(v.iter().map(|x| tt_com_view(x, bound)).collect()),
             }
         }
+    }
+}
+
+/// the same with the REPL's free variables x y z counted among the names com does not see
+pub fn com_view_free(e: &str) -> Option<String> {
+    let t = tt_parse(e)?;
+    let free: NameSet = ["x", "y", "z"].iter().map(|s| s.to_string()).collect();
+    let t2 = tt_com_view(&t, &free);
+    if t2 == t {
+        None
+    } else {
+        Some(tt_render(&t2))
     }
 }
 
@@ -867,7 +880,27 @@ impl Prop for C16Prop {
                 if ["x", "y", "z"].iter().any(|n| r.contains(&format!("1 . {n})")) || r.contains(&format!("q . {n})"))) {
                     return Some(id);
                 }
-                None
+                // ... or the quoted name was computed with and is no longer visible ((ash y -1)
+                // under an if came back as 60, half of the byte that spells y): then the residual,
+                // compiled, returns on the case's arguments exactly what the *compiled* expression
+                // returns once every free variable and let/assign-bound name inside the branches
+                // of an if is replaced by the atom spelling it
+                let e = v.case.get("expression")?.as_str()?;
+                let defs = v.case.get("definitions").and_then(|d| d.as_str()).unwrap_or("");
+                let args_text = v.case.get("args")?.as_str()?;
+                let view = com_view_free(e)?;
+                let helpers: Vec<String> = defs.lines().map(|l| l.to_string()).filter(|l| !l.trim().is_empty()).collect();
+                let args = {
+                    let mut al = clvmr::Allocator::new();
+                    let n = chialisp::classic::clvm_tools::binutils::assemble(&mut al, args_text).ok()?;
+                    V::from_node(&al, n)
+                };
+                let code_r = compile21(&xyz_pat(), &helpers, r).ok()?;
+                let code_v = compile21(&xyz_pat(), &helpers, &view).ok()?;
+                match (sut::run_consensus(&code_r, &args, RUN_COST), sut::run_consensus(&code_v, &args, RUN_COST)) {
+                    (Ok(a), Ok(b)) if a == b => Some(id),
+                    _ => None,
+                }
             }
             _ => None,
         }
